@@ -63,7 +63,9 @@ MANIFEST = dict(
                 "direction, dropping finished handlers (loop_step_dec, from callback_dec proved stage by stage) - so from ANY world a "
                 "sequence of loop moves that each change something is at most worldMu(w) long (C02_bounded_work, "
                 "C02_measure_monotone); together (C02_maximal_run_completes): from any reachable world, every run of effective loop "
-                "moves continued until no move changes anything is at most worldMu long and ends in a Quiet, i.e. complete, world. "
+                "moves continued until no move changes anything is at most worldMu long and ends in a Quiet, i.e. complete, world "
+                "(C02_maximal_run_delivers spells the conclusion out: every open endpoint has received exactly what was read from its "
+                "peer, every close has reached the other endpoint's socket). "
                 "The model is replayed against the real classes on every run with close-order scenarios; teardown within "
                 "bounded work and absence of stuck states are ALSO checked on the real code by the real-loop drain oracle (real ssnet.runonce "
                 "passes with the environment's actual readiness)."),
